@@ -63,7 +63,7 @@ structure SrvMon where
   c06s : Server.Mon C06StallSt := { st := {} }
   c08 : Server.Mon C08St := { st := [] }
   c09 : Server.Mon Server.C09St := { st := none }
-  c10 : Server.Mon Unit := { st := () }
+  c10 : Server.Mon Nat := { st := 0 }
   c11 : Server.Mon Unit := { st := () }
   c12 : Server.Mon Bool := { st := false }
   c14 : Server.Mon Client.C14St := { st := {} }
@@ -91,7 +91,7 @@ def srvMonInit (ps : List (String × String)) : SrvMon :=
   let l := srvLimit ps
   let bk : Server.Book := { limit := l }
   { limit := l, c04 := { st := (), book := bk }, c06 := { st := (), book := bk }, c06s := { st := {}, book := bk },
-    c08 := { st := [], book := bk }, c09 := { st := none, book := bk }, c10 := { st := (), book := bk },
+    c08 := { st := [], book := bk }, c09 := { st := none, book := bk }, c10 := { st := 0, book := bk },
     c11 := { st := (), book := bk }, c12 := { st := false, book := bk }, c14 := { st := {}, book := bk },
     c18 := { st := (), book := bk } }
 
